@@ -44,6 +44,8 @@ def spec_only_compare(impl_lines, model_lines):
     a = se.split_lines(impl_lines)
     b = se.split_lines(model_lines)
     for i in sorted(b["V"]):
+        if b["R"].get(i) == "panic 5":
+            continue
         want = "panic 2" if b["V"][i] == "cycle" else b["V"][i]
         if a["R"].get(i) != want:
             return dict(level="spec", step=i, impl=a["R"].get(i), model=want)
@@ -95,7 +97,7 @@ def run_seq(ctx, profiles, n_quick, n_thorough, oracle=None, known_class=None,
         if nt and h not in distinct:
             distinct.add(h)
             nontrivial += 1
-        for opk in ("(set ", "(get ", "(synth ", "(setcell ", "(setlru ", "(evict)"):
+        for opk in ("(set ", "(get ", "(synth ", "(setcell ", "(setlru ", "(evict)", "(setpanic "):
             opcount[opk.strip("( ")] = opcount.get(opk.strip("( "), 0) + c.count(opk)
 
     def fails_spec(text):
